@@ -62,6 +62,12 @@ def _bs_case(check: Check, bs, degree, inner, lb, ub, ii, mode, tmo, state=None,
         inside = z3.And(X >= lo, X <= hi)
         ncols = len(knots) - degree - 1
         want_keys = [i for i in range(ncols) if i > 0 or ii]
+        if state is None:  # the knot vector the ARGUMENTS denote: boundary knots (degree + 1)-fold, inner knots with the multiplicity written
+            denoted = [float(lb)] * (degree + 1) + sorted(float(k) for k in inner) + [float(ub)] * (degree + 1)
+            shape_ok = [float(k) for k in knots] == denoted
+            yield "recorded knot vector is the one the arguments denote (multiplicities kept)", shape_ok
+            if not shape_ok:
+                return
         yield "column keys", list(out.keys()) == want_keys
         if state is not None:
             yield "state untouched", st == state
@@ -136,7 +142,7 @@ def _run_bs(check: Check, thorough: bool, tmo: int):
         for mode in ("raise", "clip", "zero"):
             _bs_case(check, bs, degree, inner, 0.0, 4.0, True, mode, tmo, label="knot-at-bound")
     # df-derived knots from concrete training vectors with ties, then symbolic x against the recorded state
-    trains = [[0.0, 1.0, 1.0, 2.0, 5.0, 7.0, 7.0, 9.0], [3.0, -1.0, 0.5, 0.5, 0.5, 2.0, 8.0]]
+    trains = [[0.0, 1.0, 1.0, 2.0, 5.0, 7.0, 7.0, 9.0], [3.0, -1.0, 0.5, 0.5, 0.5, 2.0, 8.0], [0.0, 1.0, 2.0, 2.0, 2.0, 2.0, 2.0, 2.0, 2.0, 2.0, 5.0, 9.0]]  # the last: heavy ties, inner quantile knots coincide (not with a bound)
     for train, degree, extra, ii in itertools.product(trains, (1, 3) if not thorough else (0, 1, 2, 3), (0, 2), (True, False)):
         df = degree + extra + (1 if ii else 0)
         if df == 0:
